@@ -55,12 +55,12 @@ def Series(params: SeriesParams) -> h.Module:
     unit_conns = {port.name: port for port in par_ports}
 
     # Create the internal series-connected signals, and concatenate them with the series ports
-    i = m.add(h.Signal(name="i", width=params.nser - 1))
+    i = m.add(h.Signal(name=_fresh(m, "i"), width=params.nser - 1))
     unit_conns[series_conns[0].name] = h.Concat(series_conns[0], i)
     unit_conns[series_conns[1].name] = h.Concat(i, series_conns[1])
 
     # Create an array of unit instances
-    m.add(params.nser * params.unit(**unit_conns), name="units")
+    m.add(params.nser * params.unit(**unit_conns), name=_fresh(m, "units"))
 
     # And return the module
     return m
@@ -89,6 +89,13 @@ def _copy_port(p: Union[h.Signal, h.BundleInstance]) -> Union[h.Signal, h.Bundle
             desc=p.desc,
         )
     return deepcopy(p)
+
+
+def _fresh(m: h.Module, name: str) -> str:
+    """A name based on `name` which is not in use in `m`, e.g. by a port copied from the unit cell."""
+    while name in m.namespace:
+        name += "_"
+    return name
 
 
 def _seriesconns(m: h.Module, conns: SeriesConns) -> Tuple[h.Signal, h.Signal]:
@@ -152,7 +159,7 @@ def Wrapper(m: h.Instantiable) -> h.Module:
     wrapper_io = {p.name: wrapper.add(_copy_port(p)) for p in _io(m).values()}
 
     # Create the inner instance
-    wrapper.add(h.Instance(name="inner", of=m)(**wrapper_io))
+    wrapper.add(h.Instance(name=_fresh(wrapper, "inner"), of=m)(**wrapper_io))
 
     # And return the wrapper
     return wrapper
